@@ -30,6 +30,10 @@ NearestSet(n, d) ==
       ELSE IF 2 * rem > d THEN {f + 1}
       ELSE {f, f + 1}
 
+\* the closed half-cell characterisation of NearestSet (proved for all integers in MinImageLemma.tla with Apalache)
+NearestIsClosedHalfCell(n, d) ==
+  LET f == FloorDiv(n, d) IN
+  NearestSet(n, d) = {k \in (f - 2)..(f + 3) : 0 - d <= 2 * (n - k * d) /\ 2 * (n - k * d) <= d}
 IsHalfTie(n, d) == LET f == FloorDiv(n, d) IN 2 * (n - f * d) = d
 
 RECURSIVE Gcd(_, _)
